@@ -90,7 +90,10 @@ def off_planes(x, planes, margin):
 
 
 def field_of(objs, obs, f, mode):
-    """sum of the fields of objs at obs (n,3); mode: how the sum is taken"""
+    """sum of the fields of objs at obs (n,3); mode: how the sum is taken; a mode ending in '/each' evaluates one
+    observer per call (a batch of one row takes other paths through the grouping code than a batch of many)"""
+    if mode.endswith("/each"):
+        return np.vstack([field_of(objs, obs[i:i + 1], f, mode[:-5]) for i in range(len(obs))])
     if not isinstance(objs, (list, tuple)):
         return np.reshape(GET[f](objs, obs), (-1, 3))
     if mode == "sumup":
@@ -109,7 +112,7 @@ def compare(whole, parts, obs, pol, fields, mode, rtol, atol):
     jn = float(np.linalg.norm(pol))
     for f in fields:
         scale = jn if f in "BJ" else jn / MU0
-        W = field_of(whole, obs, f, "single")
+        W = field_of(whole, obs, f, "single" + ("/each" if mode.endswith("/each") else ""))
         P = field_of(parts, obs, f, mode)
         if not (np.all(np.isfinite(W)) and np.all(np.isfinite(P))):
             bad = int(np.argmax(~(np.isfinite(W).all(axis=1) & np.isfinite(P).all(axis=1))))
@@ -146,11 +149,12 @@ def gen_cuboid_partition(rng):
         for _ in range(2):
             ax = rng.randrange(3)
             p = [rnd(rng, -1.5 * size, 1.5 * size) for _ in range(3)]
-            p[ax] = rng.choice(edges[ax])
+            p[ax] = rng.choice([edges[ax][0], edges[ax][-1]])
             o = rng.choice([k for k in range(3) if k != ax])
             p[o] = (dim[o] / 2 + rnd(rng, 0.05, 1.0) * size) * rng.choice([-1, 1])
             q = 3 - ax - o
-            if off_planes(p[q], edges[q], margin) and off_planes(p[o], edges[o], margin):
+            if off_planes(p[q], edges[q], margin) and off_planes(p[o], edges[o], margin) \
+                    and off_planes(p[ax], edges[ax][1:-1], margin):
                 obs.append(p)
     return {"family": "cuboid_partition", "dim": dim, "edges": edges, "pol": gen_pol(rng), "pose": gen_pose(rng),
             "obs": obs, "mode": rng.choice(["sumup", "collection", "loop"])}
@@ -193,22 +197,33 @@ def near_part_surface(p_cyl, part, m):
 
 
 def special_cyl_observers(rng, re_, pe, ze, margin, n=3):
-    """observers whose cylinder coordinates coincide with one, two or three coordinates of faces / cuts
-    (z = z_k, phi = phi_j or phi_j + 180, r = r_i or 0) but which lie OFF the closed surface of every part"""
+    """observers whose cylinder coordinates coincide with one, two or three face coordinates of the WHOLE body
+    (z = -h/2 or h/2, r = r1, r2 or 0, phi = phi1, phi2 (+180) of a partial segment) but which lie OFF the closed
+    surface of the body and of every part, and never on a cut plane (the property excludes those)"""
     parts = [(re_[i], re_[i + 1], pe[j], pe[j + 1], ze[k], ze[k + 1])
              for i in range(len(re_) - 1) for j in range(len(pe) - 1) for k in range(len(ze) - 1)]
     r2, h = re_[-1], ze[-1] - ze[0]
+    full = pe[-1] - pe[0] >= 360.0
+    zvals = [ze[0], ze[-1]]
+    rvals = [x for x in (re_[0], re_[-1]) if x > 0] + ([0.0] if (re_[0] > 0 or (full and len(pe) == 2)) else [])
+    pvals = [] if full else [pe[0], pe[-1], pe[0] + 180.0, pe[-1] + 180.0]
+    cutz, cutr, cutp = ze[1:-1], re_[1:-1], (pe[:-1] if full and len(pe) > 2 else pe[1:-1])
     out = []
-    for _ in range(60):
+    for _ in range(80):
         if len(out) >= n:
             break
-        zs, ps, rs = rng.random() < 0.6, rng.random() < 0.6, rng.random() < 0.5
+        zs, ps, rs = rng.random() < 0.6, bool(pvals) and rng.random() < 0.6, rng.random() < 0.5
         if not (zs or ps or rs):
             continue
-        z = rng.choice(ze) if zs else rnd(rng, -1.5, 1.5) * max(h, r2)
-        ph = (rng.choice(pe) + rng.choice([0.0, 0.0, 180.0])) if ps else rnd(rng, -180, 180, 3)
-        r = rng.choice(list(re_) + [0.0]) if rs else rnd(rng, 0.05, 2.5) * r2
+        z = rng.choice(zvals) if zs else rnd(rng, -1.5, 1.5) * max(h, r2)
+        ph = rng.choice(pvals) if ps else rnd(rng, -180, 180, 3)
+        r = rng.choice(rvals) if rs else rnd(rng, 0.05, 2.5) * r2
         if any(near_part_surface((r, ph, z), part, margin) for part in parts):
+            continue
+        # off the (infinite) cut planes / cut cylinders / cut half planes and their opposite halves
+        if not off_planes(z, cutz, margin) or not off_planes(r, cutr, margin):
+            continue
+        if any(abs(r * math.sin(math.radians(ph - a))) <= margin for a in cutp):
             continue
         out.append([r * math.cos(math.radians(ph)), r * math.sin(math.radians(ph)), z])
     return out
@@ -561,6 +576,14 @@ def build_mixed_partition(c):
     return whole, parts
 
 
+def _with_each(gen):
+    def g(rng):
+        c = gen(rng)
+        c["each"] = c["family"] != "polyline_circle" and rng.random() < 0.3
+        return c
+    return g
+
+
 FAMILIES = {
     "cuboid_partition": gen_cuboid_partition,
     "cylinder_partition": gen_cylinder_partition,
@@ -570,6 +593,7 @@ FAMILIES = {
     "mesh_convert": gen_mesh_convert,
     "mixed_partition": gen_mixed_partition,
 }
+FAMILIES = {k: _with_each(v) for k, v in FAMILIES.items()}
 
 
 # ------------------------------------------------------------------ evaluation
@@ -696,7 +720,8 @@ def evaluate(c):
             raise ValueError(fam)
         rtol, atol = TOL[fam]
         for label, whole, parts, fields in comps:
-            mode = c["mode"] if isinstance(parts, (list, tuple)) else "single"
+            each = "/each" if c.get("each") else ""
+            mode = (c["mode"] if isinstance(parts, (list, tuple)) else "single") + each
             if fam == "mesh_convert" and c["path"]:
                 res = compare_path(whole, parts, obs, c["pol"], fields, rtol, atol)
             else:
@@ -797,6 +822,8 @@ def _variants(c):
         v(pose={"pos": [0.0, 0.0, 0.0], "rotvec": c["pose"]["rotvec"]})
     if c.get("mode") not in ("loop", "single"):
         v(mode="loop")
+    if c.get("each") and len(c["obs"]) > 1:
+        v(each=False)
     if "pol" in c:
         for k in range(3):
             if c["pol"][k] != 0 and sum(1 for x in c["pol"] if x != 0) > 1:
@@ -850,12 +877,46 @@ def shrink(c, same):
     return cur
 
 
-def signature(c, fl):
-    """<clause>/<trigger>: the identity that failed / field, region of the (shrunk) observer and, for the cylinder
-    family (separate axial and diametral closed forms), the polarization class"""
-    trig = [fl["field"], fl["region"]]
-    if fl["field"] != "raises" and c["family"] == "cylinder_partition":
-        trig.append("pol-" + pol_class(c["pol"]))
+def position_tags(c, i):
+    """how the (shrunk) observer sits relative to the faces of the whole body (cylinder family): bore / axis /
+    on the plane, cylinder or half plane of a face"""
+    if c["family"] != "cylinder_partition":
+        return []
+    p = c["obs"][i]
+    r, z = math.hypot(p[0], p[1]), p[2]
+    ph = math.degrees(math.atan2(p[1], p[0]))
+    tags = []
+    eps = 1e-9 * max(c["r"][-1], c["z"][-1] - c["z"][0])
+    if r <= eps:
+        tags.append("axis")
+    elif c["r"][0] > 0 and r < c["r"][0] - eps:
+        tags.append("bore")
+    if any(abs(r - x) <= eps for x in c["r"] if x > 0):
+        tags.append("r=face")
+    if any(abs(z - x) <= eps for x in c["z"]):
+        tags.append("z=face")
+    if c["phi"][-1] - c["phi"][0] < 360.0 and r > eps and \
+            any(abs(math.sin(math.radians(ph - a))) * r <= eps for a in (c["phi"][0], c["phi"][-1])):
+        tags.append("phi=face")
+    return tags
+
+
+def signature(c, fl, failed=None):
+    """<clause>/<trigger>: the identity that failed / the most basic failing field (J before M before H before B:
+    a wrong J means a wrong inside decision, and B follows), the region of the (shrunk) observer, its special
+    position tags and, when only the closed forms of the cylinder family disagree, the polarization class"""
+    fld = fl["field"]
+    for f in ("J", "M", "H", "B"):
+        if failed and f in failed:
+            fld = f
+            break
+    trig = [fld, fl["region"]]
+    if fld != "raises":
+        tags = position_tags(c, min(fl["obs_index"], len(c["obs"]) - 1))
+        if tags:
+            trig.append(",".join(tags))
+        if c["family"] == "cylinder_partition" and fld in "BH":
+            trig.append("pol-" + pol_class(c["pol"]))
     return fl["clause"] + "/" + ":".join(trig)
 
 
@@ -876,6 +937,8 @@ def find_and_shrink(c):
     if not same(c1):
         c1 = dict(c)
     c2 = shrink(c1, same)
-    r = [x for x in evaluate(c2) if x["clause"] == fl["clause"] and x["field"] == fl["field"]]
+    allf = [x for x in evaluate(c2) if x["clause"] == fl["clause"]]
+    r = [x for x in allf if x["field"] == fl["field"]]
     fl2 = r[0] if r else fl
-    return signature(c2, fl2), fl2["detail"], c2
+    failed = {x["field"] for x in allf if x["obs_index"] == fl2["obs_index"]}
+    return signature(c2, fl2, failed), fl2["detail"], c2
